@@ -64,7 +64,7 @@ fn rule_r1(rng: &mut Rng, identity: bool) -> String {
 }
 
 const SRC1: &str = "foo(abc, x + 1);\nfoo(aXa, [x, 2, x]);\nfoo(b, 1);\nglob(1);\n";
-const SRC2: &str = "let z = foo(a1, x);\nbaz(z);\n";
+const SRC2: &str = "let z = foo(a1, x);\nbaz(z);\nlegacy(api, FetchAll, \"users\");\n";
 
 fn write_project(p: &Project, rng: &mut Rng, identity: bool) -> Vec<String> {
   p.config(Some(&json!({"utilDirs": ["utils"], "testConfigs": [{"testDir": "tests"}],
@@ -88,6 +88,18 @@ fn write_project(p: &Project, rng: &mut Rng, identity: bool) -> Vec<String> {
   let u4_obj = obj(&u4.iter().map(|i| u4_items[*i].clone()).collect::<Vec<_>>());
   let r4 = format!(r#"{{"id": "r4", "language": "JavaScript", "severity": "warning", "message": "k", "rule": {{"matches": "kE"}}, "utils": {u4_obj}}}"#);
   p.write("rules/r4.yml", r4.as_bytes());
+  // the object form of `fix` with several independent transformations: every variable of the template is a key of
+  // `transform`, looked up in whatever order the map hands them out
+  let t6 = if identity { vec![0, 1, 2, 3] } else { permute(&[0, 1, 2, 3], rng) };
+  let t6_items = [
+    ("OBJ", r#"{"convert": {"source": "$P", "toCase": "upperCase"}}"#.to_string()),
+    ("FN", r#"{"convert": {"source": "$Q", "toCase": "lowerCase"}}"#.to_string()),
+    ("ARG", r#"{"substring": {"source": "$R", "startChar": 1, "endChar": -1}}"#.to_string()),
+    ("TAIL", r#"{"replace": {"source": "$R", "replace": "s", "by": "z"}}"#.to_string()),
+  ];
+  let t6_obj = obj(&t6.iter().map(|i| t6_items[*i].clone()).collect::<Vec<_>>());
+  let r6 = format!(r#"{{"id": "r6", "language": "JavaScript", "severity": "warning", "message": "use $OBJ.$FN($ARG) $TAIL", "rule": {{"pattern": "legacy($P, $Q, $R)"}}, "transform": {t6_obj}, "fix": {{"template": "$OBJ.$FN($ARG)/$TAIL", "expandEnd": {{"regex": ";"}}}}}}"#);
+  p.write("rules/r6.yml", r6.as_bytes());
   p.write(&format!("rules/{}", names[0]), r1.as_bytes());
   p.write(&format!("rules/{}", names[1]), r2.as_bytes());
   p.write(&format!("rules/{}", names[2]), r3.as_bytes());
